@@ -437,7 +437,7 @@ Definition c03_sb (c : cfg) (t : nat) (init : N) (hist : list round_obs) (o : se
         let n := sample_count_of c in
         let r := ceil_div n tN in
         all_eq s (o_sizes o) && all_eq (s * kN) (o_calls o) && (recorded =? tN * kN) &&
-        (o_final_size o =? s) &&
+        (o_final_size o =? (if (k =? 0)%nat then 0 else s)) &&
         (* no time limit reached before round R and the floor reached at R => exactly R rounds *)
         let free := forallb (fun j => elapsed_after c init hist j <? c_max c) (seq 0 (N.to_nat (N.min r kN))) in
         if free then
